@@ -182,6 +182,20 @@ func (r *rotPayload) HmacInfo() []byte          { return r.info }
 var tagPool = []string{"public", "sensitive", "secret", "sensitive,redact", "sensitive,hmac-sha256", "secret,encrypt", "secret,hmac-sha256", "secret,HMAC-SHA256",
 	"sensitive,ENCRYPT", "Sensitive", "PUBLIC", "bogus", "sensitive,bogus", "secret,", "public,redact", "", "sensitive,redact,extra", ",redact", "secret,Redact"}
 
+// namedTM: a Taggable map whose values are byte strings of several types
+type namedTM map[string]interface{}
+type namedToken []byte
+
+var namedTagOp encrypt.FilterOperation
+
+func (namedTM) Tags() ([]encrypt.PointerTag, error) {
+	var ts []encrypt.PointerTag
+	for _, k := range []string{"raw", "tok", "plain", "str"} {
+		ts = append(ts, encrypt.PointerTag{Pointer: "/" + k, Classification: encrypt.SensitiveClassification, Filter: namedTagOp})
+	}
+	return ts, nil
+}
+
 func encryptMain(args []string) {
 	fs := flag.NewFlagSet("encrypt", flag.ExitOnError)
 	seed := fs.Uint64("seed", 1, "seed")
@@ -698,6 +712,48 @@ func encryptMain(args []string) {
 		}
 	}
 	deepShapes(p, *deep, st, oracle)
+	// byte strings of a named type under pointer tags (json.RawMessage, a token type of the caller's): what is
+	// encrypted / HMAC-ed is the value's bytes, as for a plain []byte
+	for r := 0; r < 12; r++ {
+		raw := []byte(fmt.Sprintf("{\"ssn\":\"%d-%d\"}", p.intn(1000), r))
+		namedTagOp = []encrypt.FilterOperation{encrypt.EncryptOperation, encrypt.HmacSha256Operation}[r%2]
+		f := &encrypt.Filter{Wrapper: testWrapper(1), HmacSalt: []byte("s"), HmacInfo: []byte("i")}
+		in := namedTM{"raw": json.RawMessage(append([]byte(nil), raw...)), "tok": namedToken(append([]byte(nil), raw...)), "plain": append([]byte(nil), raw...), "str": string(raw)}
+		got, err := f.Process(ctx, &eventlogger.Event{Type: "t", Payload: in, Formatted: map[string][]byte{}})
+		st.Cases++
+		st.Ops++
+		if err != nil || got == nil {
+			oracle("C16 a Taggable map holding byte strings of named types under pointer tags: Process failed: %v", err)
+			continue
+		}
+		out, _ := got.Payload.(namedTM)
+		for _, k := range []string{"raw", "tok", "plain", "str"} {
+			v := fmt.Sprint(out[k])
+			if bs, ok := out[k].([]byte); ok {
+				v = string(bs)
+			}
+			switch {
+			case strings.HasPrefix(v, "hmac-sha256:"):
+				if want := indepHmac(keyBytes(1), []byte("s"), []byte("i"), raw); v != want {
+					oracle("C16 the value under /%s (%T) was HMAC-ed, but the digest is not HMAC-SHA256 of the value's bytes", k, in[k])
+				}
+			case strings.HasPrefix(v, "encrypted:"):
+				blob := new(wrapping.BlobInfo)
+				rawCt, derr := base64.RawURLEncoding.DecodeString(strings.TrimPrefix(v, "encrypted:"))
+				if derr != nil || proto.Unmarshal(rawCt, blob) != nil {
+					oracle("C16 the value under /%s (%T) does not decode as a ciphertext", k, in[k])
+					continue
+				}
+				pt, derr := testWrapper(1).Decrypt(ctx, blob, nil)
+				if derr != nil || string(pt) != string(raw) {
+					oracle("C16 the value under /%s (%T) was encrypted, but it decrypts to %.40q, the original bytes are %.40q", k, in[k], pt, raw)
+				}
+			default:
+				oracle("C09 the value under /%s (%T), tagged sensitive, came out as %.40q", k, in[k], v)
+			}
+		}
+		st.hit("named-byte-strings")
+	}
 	o.close()
 	st.write(*out)
 	if len(st.Oracle) > 0 {
